@@ -14,31 +14,55 @@ CONSTANT MaxLog        \* log texts per history (the log only grows, so it bound
 VARIABLE d
 svars == <<S, hist, nlog, done, I, d>>
 
-NoDraw == {"set_style", "restyle", "clone", "drop_one", "reset_eta", "reset_elapsed", "is_hidden", "downgrade", "upgrade", "new"}
+NoDraw == {"set_style", "restyle", "clone", "drop_one", "reset_eta", "reset_elapsed", "is_hidden", "downgrade", "upgrade"}
 
 RECURSIVE WriteLines(_, _, _)
 WriteLines(t, ls, j) == IF j > Len(ls) THEN t ELSE WriteLines(Line(t, ls[j]), ls, j + 1)
 
-(* what the library does to the terminal for operation o (S0 before, S1 after, both contract states) *)
+(* calls whose draw is forced; every draw of a finished bar is forced, too (BarState::draw) *)
+ForcedOps == {"println", "suspend", "finish", "finish_with_message", "finish_and_clear", "abandon", "abandon_with_message", "finish_using_style",
+              "force_draw", "set_tab_width", "drop"}
+WithLim(r, l) == [t |-> r.t, llc |-> r.llc, atEnd |-> r.atEnd, lim |-> l]
+
+(* n ordinary draw requests of the same frame at the same instant (a burst of ticks) *)
+RECURSIVE BurstDraw(_, _, _, _, _)
+BurstDraw(dd, frame, k, force, now) ==
+    IF k = 0 THEN dd
+    ELSE LET a == IF dd.lim.on /\ ~force THEN Allow(dd.lim, now) ELSE [ok |-> TRUE, l |-> dd.lim]
+         IN BurstDraw(IF a.ok THEN WithLim(DrawToTerm(dd, frame, FALSE), a.l) ELSE dd, frame, k - 1, force, now)
+
+(* the items of an iterator: item k shows the position advanced by k *)
+RECURSIVE IterDraw(_, _, _, _, _, _)
+IterDraw(dd, B0, k, n, force, now) ==
+    IF k > n THEN dd
+    ELSE IterDraw(BurstDraw(dd, ToBar(Render([B0 EXCEPT !.pos = B0.pos + k])), 1, force, now), B0, k + 1, n, force, now)
+
+(* what the library does to the terminal for operation o (S0 before, S1 after, both contract states); o.t = time in microseconds *)
 ImplStep(dd, o, S0, S1) ==
     LET b == o.b
         vis == b \in S1.ids /\ S0.bars[b].vis
         frame == ToBar(Render(S1.bars[b]))
-    IN IF o.op \in NoDraw \/ ~vis THEN dd
-       ELSE IF o.op = "println" THEN DrawToTerm(dd, ToText(TextLines(o.m)) \o frame, FALSE)
+    IN IF o.op = "new" THEN [dd EXCEPT !.lim = IF o.target = "spy_hz" /\ o.hz > 0 THEN LimNew(o.hz, o.t) ELSE NoLim]
+       ELSE IF o.op \in NoDraw \/ ~vis THEN dd
+       ELSE IF o.op = "println" THEN WithLim(DrawToTerm(dd, ToText(TextLines(o.m)) \o frame, FALSE), dd.lim)
        ELSE IF o.op = "suspend" THEN
             LET d1 == DrawToTerm(dd, <<>>, FALSE)
                 d2 == [d1 EXCEPT !.t = WriteLines(d1.t, Split(o.m), 1)]
-            IN DrawToTerm(d2, frame, FALSE)
-       ELSE IF o.op = "drop" THEN (IF S0.bars[b].fin = "no" THEN DrawToTerm(dd, frame, FALSE) ELSE dd)
-       ELSE IF o.op = "iter" THEN DrawToTerm(dd, frame, FALSE)
-       ELSE DrawToTerm(dd, frame, FALSE)
+            IN WithLim(DrawToTerm(d2, frame, FALSE), dd.lim)
+       ELSE IF o.op = "drop" THEN (IF S0.bars[b].fin = "no" THEN WithLim(DrawToTerm(dd, frame, FALSE), dd.lim) ELSE dd)
+       ELSE IF o.op = "iter" THEN
+            LET d1 == IterDraw(dd, S0.bars[b], 1, o.n, S0.bars[b].fin # "no", o.t)
+            IN IF S0.bars[b].fin = "no" THEN WithLim(DrawToTerm(d1, frame, FALSE), d1.lim) ELSE d1
+       ELSE IF o.op = "burst" THEN BurstDraw(dd, frame, o.n, S1.bars[b].fin # "no", o.t)
+       ELSE IF o.op \in ForcedOps \/ S1.bars[b].fin # "no" \/ ~dd.lim.on THEN WithLim(DrawToTerm(dd, frame, FALSE), dd.lim)
+       ELSE LET a == Allow(dd.lim, o.t) IN
+            IF a.ok THEN WithLim(DrawToTerm(dd, frame, FALSE), a.l) ELSE dd       \* a refused request changes nothing
 
 RECURSIVE BaseTerm(_, _)
 BaseTerm(t, j) == IF j >= Base THEN t ELSE BaseTerm(Line(t, <<36, 48 + j>>), j + 1)
 
 SInitD == /\ Init
-          /\ d = [t |-> BaseTerm(TInit(W, H), 0), llc |-> 0, atEnd |-> FALSE]
+          /\ d = [t |-> BaseTerm(TInit(W, H), 0), llc |-> 0, atEnd |-> FALSE, lim |-> NoLim]
 
 SStep == /\ Len(hist) < D /\ ~Dead /\ ~done
          /\ \E o \in {x \in OpsNow : x.op \in {"println", "suspend"} => nlog < MaxLog} : \E S1 \in {Advance(o)} :
